@@ -11,6 +11,8 @@ judged by TLC against the P-layer of spec/StatsCheck.tla (Trace_Stats); nothing 
 Encoding contract with spec/StatsCheck.tla:
   values   v[i] integers in units 1/U (dyadic grid, floats v/U are exact), nan[i] mask;  weights w[i] in 1/WU, wnan[i]
   values   x[i], wx[i] = the same numbers as Num.Z records {n, m}: round(|v/U| * 10^12) in base-10^4 limbs
+  fine weights (wfine): weight[i] = k[i] * 2^-ws with k[i] carried exactly as the limbs of wx[i] (w = []); the
+           specification only compares weight sums and ratios, so the unit of wx does not matter
   results  out/out2 = Num.Z record of round(|result| * 10^12) (any magnitude), isnan/isnan2 = result is NaN or
            infinite;  err/err2 = exception type name or ""
   smoother outs[i] = {n, m, fin},  outg[i] = [floor(x * U), x * U is an integer?];  outi = integer result
@@ -46,7 +48,7 @@ REQUIRE_CLAUSES = list(
        "scale_proportional", "rollmed_windowed_median", "wing_spec", "pad_mirror", "guess_bounds"]
     + [f"{e}_{c}" for e in SMOOTHERS for c in ("one_finite_per_input", "constant")])
 
-BLANK = {"op": "", "est": "", "kind": "single", "U": 1024, "v": [], "x": [], "nan": [], "WU": 1, "w": [], "wx": [], "wnan": [],
+BLANK = {"op": "", "est": "", "kind": "single", "U": 1024, "v": [], "x": [], "nan": [], "WU": 1, "w": [], "wx": [], "wnan": [], "wfine": False, "ws": 0,
          "flag": False, "hasinit": False, "init": 0, "c": 0, "fn": 1, "fd": 1, "wn": 0, "wd": 0}
 INPUT_FIELDS = list(BLANK)
 
@@ -151,7 +153,7 @@ def execute(inp):
     if est in ESTIMATORS:
         w = None
         if est in WEIGHTED:
-            w = np.array([float("nan") if m else k / inp["WU"] for k, m in zip(inp["w"], inp["wnan"])], dtype=float)
+            w = np.array([float("nan") if m else k for k, m in zip(_weights(inp), inp["wnan"])], dtype=float)
         try:
             rec["out"], rec["isnan"] = _fx(_call_est(D, est, x.copy(), None if w is None else w.copy(), inp))
         except Exception as e:      # an exception is an outcome the specification judges (*_noerr)
@@ -194,20 +196,44 @@ def execute(inp):
 
 # ------------------------------------------------------------------ inputs
 def mk(est, v, *, kind="single", U=1024, nan=None, w=None, WU=1, wnan=None, flag=False, init=None, c=0, fn=1, fd=1,
-       wn=0, wd=0):
+       wn=0, wd=0, wk=None, ws=0):
+    """wk/ws: fine weights k * 2^-ws (arbitrary-size integers k) instead of w/WU."""
     r = dict(BLANK)
+    nw = len(wk) if wk is not None else len(w or [])
     r.update(op=est if kind == "single" else f"{est}.{kind}", est=est, kind=kind, U=U, v=list(v),
              nan=list(nan) if nan is not None else [False] * len(v), WU=WU, w=list(w) if w is not None else [],
-             wnan=list(wnan) if wnan is not None else [False] * len(w or []), flag=bool(flag),
+             wnan=list(wnan) if wnan is not None else [False] * nw, flag=bool(flag),
              hasinit=init is not None, init=int(init or 0), c=c, fn=fn, fd=fd, wn=wn, wd=wd)
+    if wk is not None:
+        r.update(wfine=True, ws=int(ws), w=[], wx=[{"n": False, "m": _limbs(int(k))} for k in wk])
     return _with_fx(r)
 
 
 def _with_fx(r):
     """the fixed-point copies of values and weights (pure re-encoding of v/U and w/WU)."""
     r["x"] = [_zfx(k, r["U"]) for k in r["v"]] if r["est"] in ESTIMATORS else []
-    r["wx"] = [_zfx(k, r["WU"]) for k in r["w"]]
+    if not r.get("wfine"):
+        r["wx"] = [_zfx(k, r["WU"]) for k in r["w"]]
     return r
+
+
+def _wk(rec):
+    """the integers k of fine weights, back from their limbs."""
+    return [sum(d * 10000**i for i, d in enumerate(z["m"])) for z in rec["wx"]]
+
+
+def _weights(inp):
+    """the float weights the real code is called with (exact: k / 2^ws with k < 2^53, or w / WU on the grid)."""
+    if inp.get("wfine"):
+        return [k / 2 ** inp["ws"] for k in _wk(inp)]
+    return [k / inp["WU"] for k in inp["w"]]
+
+
+def fine_from_floats(ws):
+    """exact (k, exponent) representation of IEEE doubles: w[i] = k[i] * 2^-e."""
+    ratios = [float(x).as_integer_ratio() for x in ws]
+    e = max(d.bit_length() - 1 for _, d in ratios)
+    return [n * (2 ** e // d) for n, d in ratios], e
 
 
 def _inputs_from_states(states):
@@ -215,7 +241,9 @@ def _inputs_from_states(states):
     for st in states:
         if st["ph"] != "ret":
             continue
-        inp = _with_fx({k: tlaval.to_py(st["inp"][k]) for k in INPUT_FIELDS if k not in ("x", "wx")})
+        inp = {k: tlaval.to_py(st["inp"][k]) for k in INPUT_FIELDS if k not in ("x", "wx")}
+        inp["wx"] = []
+        inp = _with_fx(inp)
         # the encoder's fixed-point copies must be the values the specification itself derives from v/U, w/WU
         if inp["x"] != tlaval.to_py(st["inp"]["x"]) or inp["wx"] != tlaval.to_py(st["inp"]["wx"]):
             raise MachineryError(f"fixed-point encoding differs from Stats.FxGrid for {inp['v']} / {inp['U']}")
@@ -297,6 +325,41 @@ def gen_weights(rng, v, style):
 
 
 WSTYLES = ["equal", "random", "random", "dominant", "zeros", "half"]
+FINE_STYLES = ["near_over", "near_under", "tiny", "tiny_equal"]     # weighted median / MAD (tiny also weighted sd)
+NEAR_RELS = [1e-4, 1e-5, 1e-6, 1e-7, 1e-9]
+
+
+def gen_fine_weights(rng, v, style):
+    """weights k * 2^-ws finer than the 12-digit grid -> (k list, ws).
+    near_over / near_under: the cumulative weight (in value order) at the median index exceeds / falls short of half the
+    total by a relative amount in NEAR_RELS;  tiny / tiny_equal: small integers scaled by 2^-20 .. 2^-40."""
+    n = len(v)
+    if style in ("tiny", "tiny_equal"):
+        ws = rng.randint(20, 40)
+        if style == "tiny_equal":
+            return [rng.choice([1, 1, 3, 5])] * n, ws
+        return [rng.randint(1, 16) for _ in range(n)], ws
+    ws = 34
+    k = [rng.randint(2**32, 2**34) for _ in range(n)]
+    if n < 2:
+        return k, ws
+    order = sorted(range(n), key=lambda i: v[i])
+    tot, cum, p = sum(k), 0, 1
+    for j, i in enumerate(order[:-1]):          # natural cut: first position where half of the weight is reached
+        cum += k[i]
+        p = j + 1
+        if 2 * cum >= tot:
+            break
+    L = sum(k[i] for i in order[:p])
+    R = tot - L
+    d = max(2, int(round(rng.choice(NEAR_RELS) * tot)))
+    want = d if style == "near_over" else -d    # L - R afterwards
+    diff = want - (L - R)
+    if diff > 0:
+        k[order[p - 1]] += diff
+    else:
+        k[order[p]] += -diff
+    return k, ws
 
 
 def gen_nan(rng, n):
@@ -330,7 +393,19 @@ def random_estimator_inputs(ctx, est, count, cap):
         v = gen_values(rng, n, style)
         nan = gen_nan(rng, n)
         kw = {"nan": nan}
-        if est in WEIGHTED:
+        if est in WEIGHTED and rng.random() < (0.3 if est != "wstd" else 0.1):
+            # weights off the 12-digit grid: near-half cumulative weight, tiny totals
+            if est != "wstd" and n > 12 and rng.random() < 0.7:
+                n = rng.randint(2, 12)
+                v = v[:n]
+            nan = [False] * n
+            kw["nan"] = nan
+            fs = rng.choice(FINE_STYLES if est != "wstd" else ["tiny", "tiny_equal"])
+            if fs.startswith("near") and len(set(v)) < len(v) and rng.random() < 0.7:
+                v = [x + j for j, x in enumerate(v)]          # distinct values: a wrong midpoint is then visible
+            wk, wsx = gen_fine_weights(rng, v, fs)
+            kw.update(wk=wk, ws=wsx)
+        elif est in WEIGHTED:
             ws = rng.choice(WSTYLES)
             w, WU = gen_weights(rng, v, ws)
             wnan = [False] * n
@@ -452,6 +527,13 @@ def structured_inputs():
     out.append(mk("wmedian", g([1, 2, 3]), w=[2, 1, 1]))          # one weight exactly half
     out.append(mk("wmedian", g([1, 2, 3]), w=[1, 1, 2]))
     out.append(mk("wmedian", g([3, 1, 2]), w=[5, 1, 1]))          # dominant
+    # seeded change C19-1 (exact-half test loosened to np.isclose): half the weight is *nearly* reached after the
+    # second value / the weights are tiny, so every difference is below an absolute tolerance
+    for est in ("wmedian", "wmad"):
+        for ws_ in ([0.5, 0.500004, 1.0], [1e-10] * 3, [0.5, 0.5 + 2.0**-30, 1.0], [2.0**-40] * 3, [2.0**-40] * 4):
+            wk, e = fine_from_floats(ws_)
+            vals = g([1, 2, 3, 4][:len(ws_)])
+            out.append(mk(est, vals, wk=wk, ws=e, flag=(est == "wmad")))
     # candidate 9: biweight location mask
     for p in (5.9, 7.0, 8.4, 9.0):
         out.append(mk("biloc", g([-2, -1, 0, 1, 2, p])))
@@ -510,7 +592,8 @@ def _count_boundaries(ctx, rec):
         if n >= 399:
             ctx.bump("length_399_400")
         if est in WEIGHTED:
-            w = [0 if wm else x for x, wm, m in zip(rec["w"], rec["wnan"], rec["nan"]) if not m]
+            wi = _wk(rec) if rec.get("wfine") else rec["w"]
+            w = [0 if wm else x for x, wm, m in zip(wi, rec["wnan"], rec["nan"]) if not m]
             tot = sum(w)
             if any(x == 0 for x in w):
                 ctx.bump("zero_weight")
@@ -529,6 +612,24 @@ def _count_boundaries(ctx, rec):
                     break
             if any(rec["wnan"]):
                 ctx.bump("nan_weight")
+            if rec.get("wfine"):
+                ctx.bump("weights_finer_than_1e-12")
+                if max(w).bit_length() <= rec["ws"] - 19:
+                    ctx.bump("tiny_total_weight_below_2^-19_each")
+                    if len(set(w)) == 1 and n >= 2:
+                        ctx.bump("tiny_equal_weights")
+                # cumulative weight just above / just below half at the median index (relative to half the total)
+                cum = 0
+                for k in order:
+                    prev, cum = cum, cum + w[k]
+                    if 2 * cum >= tot:
+                        over, under = 2 * cum - tot, tot - 2 * prev
+                        for name, dlt in (("over", over), ("under", under)):
+                            if 0 < dlt and dlt * 5000 <= tot:
+                                ctx.bump(f"near_half_{name}_rel_le_2e-4")
+                                if dlt * 500000 <= tot:
+                                    ctx.bump(f"near_half_{name}_rel_le_2e-6")
+                        break
         if rec["kind"] == "shift":
             ctx.bump("translation_pairs")
         if rec["kind"] == "scale":
@@ -625,7 +726,8 @@ def run(ctx: Ctx):
     recs += rnd
     for rec in recs:
         kept = sum(1 for m in (rec["nan"] or [False] * len(rec["v"])) if not m)
-        ctx.count_input([rec[k] for k in INPUT_FIELDS if k not in ("x", "wx")], nontrivial=kept >= 2)
+        ctx.count_input([rec[k] for k in INPUT_FIELDS if k not in ("x", "wx")] + (_wk(rec) if rec["wfine"] else []),
+                        nontrivial=kept >= 2)
         _count_boundaries(ctx, rec)
     for rec in (recs[0], recs[n_mc // 2], rnd[0], rnd[len(rnd) // 2], rnd[-1]):
         ctx.sample({k: v for k, v in rec.items() if k not in ("x", "wx")})
